@@ -15,10 +15,12 @@ PID = "C14"
 
 QUICK = ["1x1", "1x4", "2x2:rmw:j", "2x8", "3x3:rmw:j", "4x4:rmw:j", "4x8",
          "2x4:save", "3x2:save:j", "4x2:save",
-         "4x4:fresh", "3x8:fresh", "4x2:fresh:j", "2x8:fresh"]   # fresh: nobody creates the record, the first updates race on an absent file
+         "4x4:fresh", "3x8:fresh", "4x2:fresh:j", "2x8:fresh",
+         "3x4:final", "4x4:final:j"]   # final: >= 3 parties keep updating a record that is and stays in a final state   # fresh: nobody creates the record, the first updates race on an absent file
 THOROUGH_TLC = ["1x1", "1x8", "2x1:rmw:j", "2x2:rmw:j", "2x8:rmw:j", "3x3:rmw:j", "3x8", "4x1:rmw:j", "4x2:rmw:j", "4x4:rmw:j", "4x8:rmw:j",
                 "1x4:save", "2x4:save:j", "3x2:save:j", "4x2:save:j", "4x4:save:j",
-                "4x4:fresh", "3x8:fresh", "4x2:fresh:j", "2x8:fresh", "4x8:fresh", "2x2:fresh", "3x3:fresh:j", "4x4:fresh:j"]
+                "4x4:fresh", "3x8:fresh", "4x2:fresh:j", "2x8:fresh", "4x8:fresh", "2x2:fresh", "3x3:fresh:j", "4x4:fresh:j",
+                "3x4:final", "4x4:final:j", "4x8:final", "3x3:final:j"]
 THOROUGH_BULK = ["4x8:rmw:j", "4x8", "3x8:rmw:j", "2x8:rmw:j", "4x4:save:j"]
 
 
@@ -67,7 +69,8 @@ def _run(tier, seed, replay=None):
     if not rf.ok:
         raise vlib.Inconclusive("TLC did not succeed on the fresh-file configuration (exit %s, violated=%s)" % (rf.exit, rf.violated))
     for name, inv in (("StatusFile_wit_noloadlock.cfg", "NoTornRead"), ("StatusFile_wit_nosavelock.cfg", "NoTornRead"),
-                      ("StatusFile_wit_noreread.cfg", "NoLostUpdate"), ("StatusFile_wit_statbeforelock.cfg", "NoLostUpdate")):
+                      ("StatusFile_wit_noreread.cfg", "NoLostUpdate"), ("StatusFile_wit_statbeforelock.cfg", "NoLostUpdate"),
+                      ("StatusFile_wit_unlinklock.cfg", "Mutex")):
         w = vlib.tlc("StatusFileMC", name, wd, timeout=600)
         if w.violated != inv:
             raise vlib.Inconclusive("variant %s did not violate %s (exit %s)" % (name, inv, w.exit))
